@@ -143,6 +143,11 @@ def execute(ctx, cases, corr):
         ctx.cfgs_used.add(cfg + ("+" + "+".join(feats) if feats else ""))
         outs = run_harness_par(exe, [c.hline for c in cs])
         for c, o in zip(cs, outs):
+            if c.kind == "arb" and o.startswith("valid "):
+                # whole-request generators: whether the bytes ran out is recorded, not compared
+                k = "arb whole-request: " + o[6:]
+                corr["stats"][k] = corr["stats"].get(k, 0) + 1
+                o = "valid"
             c.impl = o
     llines = [c.lline for c in cases]
     rc, mout = pipe_par([DRIVER], llines)
@@ -1484,6 +1489,88 @@ def cases_c04(ctx, boost):
     return out
 
 
+# =============================================================================== C19
+ARB_TYPED = ["webauthn::PublicKeyCredentialRpEntity", "webauthn::PublicKeyCredentialUserEntity",
+             "webauthn::FilteredPublicKeyCredentialParameters", "ctap2::AttestationFormatsPreference",
+             "ctap2::get_assertion::HmacSecretInput"]
+ARB_WHOLE = ["ctap2::Request", "ctap1::Request", "authenticator::Request"]
+
+
+def arb_inputs(rng, tier, boost):
+    """(tag, bytes) — the property's input families"""
+    out = []
+    lens = [0, 1, 2, 7, 8, 9, 12, 16, 40, 64, 65, 128, 129, 256, 257, 300, 1024, 4096]
+    for L in lens:
+        out.append(("all-zero", bytes(L)))
+        out.append(("all-0xFF", b"\xff" * L))
+    reps = range(256) if tier == "thorough" else [1, 2, 3, 0x41, 0x7f, 0x80, 0xbf, 0xc2, 0xdf, 0xe0, 0xe2, 0xed, 0xef, 0xf0, 0xf4, 0xf5, 0xfe]
+    for b in reps:
+        for L in ([8, 9, 64, 300, 4096] if tier == "thorough" else [9, 300]):
+            out.append(("single byte repeated", bytes([b]) * L))
+    scal = [b"a", b"z", "é".encode(), "ß".encode(), "€".encode(), "語".encode(), "𝄞".encode(), "😀".encode()]
+    bad = [b"\xc0\x80", b"\xe0\x80\x80", b"\xed\xa0\x80", b"\xf4\x90\x80\x80", b"\xf0\x9f\x98", b"\xe2\x82", b"\xc3",
+           b"\x80", b"\xbf", b"\xff", b"\xf8\x88\x80\x80\x80"]
+
+    def text(n, p_bad):
+        t = b""
+        while len(t) < n:
+            t += rng.choice(bad) if rng.random() < p_bad else rng.choice(scal)
+        return t
+
+    def word(v):
+        return (v & (2 ** 64 - 1)).to_bytes(8, "little")
+
+    for _ in range(60 * boost):
+        L = rng.choice([3, 8, 20, 70, 140, 300, 1000, 4096])
+        out.append(("random", rng.randbytes(L)))
+    for _ in range(120 * boost):
+        # length word, then text that is longer than / around the capacities 64, 128, 256
+        cap = rng.choice([32, 64, 80, 128, 256])
+        n = rng.choice([cap - 1, cap, cap + 1, cap + 2, cap + 3, 2 * cap, 2 ** 64 - 1, 2 ** 32, rng.randrange(0, 400)])
+        pre = rng.choice(scal[:2]) * rng.randrange(0, 4)
+        body = pre + text(rng.choice([cap + 8, 2 * cap, 10, 400]), rng.choice([0.0, 0.0, 0.05, 0.3]))
+        tail = b"".join(rng.choice([bytes([rng.randrange(256)]), word(rng.randrange(0, 300)), text(rng.randrange(0, 90), 0.1)])
+                        for _ in range(rng.randrange(0, 12)))
+        out.append(("length word + multi-byte text", word(n) + body + tail))
+        out.append(("bool + length word + text", bytes([rng.randrange(256)]) + word(n) + body + tail))
+    for _ in range(80 * boost):
+        # many small draws: bools / counts / selectors / short texts
+        parts = []
+        for _ in range(rng.randrange(1, 40)):
+            parts.append(rng.choice([bytes([rng.randrange(256)]), bytes([rng.randrange(4)]), word(rng.randrange(0, 70)),
+                                     rng.randbytes(4), text(rng.randrange(0, 70), 0.1), b"\x01", b"\x03"]))
+        out.append(("structured draws", b"".join(parts)[:4096]))
+    return out
+
+
+def cases_c19(ctx, boost):
+    out = []
+    g = ctx.gen("000")
+    rng = g.rng
+    feats = ("arbitrary",)
+    inputs = arb_inputs(rng, ctx.tier, boost)
+    for tag, b in inputs:
+        hx = b.hex() or "-"
+        for ty in ARB_TYPED:
+            out.append(np(Case("arb", "000", f"arb {ty} {hx}", tag=f"{ty.split('::')[-1]}: {tag}", feats=feats)))
+        for ty in ARB_WHOLE:
+            # steer the derived enums to every variant: the selector is the first u32 (little endian)
+            out.append(np(Case("arb", "000", f"arb {ty} {hx}", tag=f"{ty}: {tag}", feats=feats)))
+            if tag in ("length word + multi-byte text", "structured draws", "random"):
+                nvar = {"ctap2::Request": 11, "ctap1::Request": 3, "authenticator::Request": 2}[ty]
+                v = rng.randrange(nvar)
+                sel = ((v * 2 ** 32 + nvar - 1) // nvar).to_bytes(4, "little")
+                sel2 = ((rng.randrange(11) * 2 ** 32 + 10) // 11).to_bytes(4, "little") if ty == "authenticator::Request" else b""
+                end = bytes([rng.randrange(0, 40)]) * rng.randrange(0, 3)          # slice lengths are read from the end
+                out.append(np(Case("arb", "000", f"arb {ty} {(sel + sel2 + b + end).hex()}", tag=f"{ty}: variant-steered {tag}", feats=feats)))
+    if ctx.tier == "thorough":
+        for cfg in ("111",):
+            for tag, b in inputs[::3]:
+                for ty in ARB_WHOLE:
+                    out.append(np(Case("arb", cfg, f"arb {ty} {b.hex() or '-'}", tag=f"{ty}: {tag} (all features)", feats=feats)))
+    return out
+
+
 NOT_YET = {}
 
 PROPS = {
@@ -1712,6 +1799,31 @@ PROPS = {
             "assumptions": ["dependencies behave as modelled (DESIGN.md App. A): their own panics / aborts / stack use are "
                             "only observed by the correspondence, on an 8 MiB main-thread stack, 64-bit host",
                             "Miri (undefined behaviour in executions that do not crash) is run in the thorough tier only"]},
+    "C19": {"ns": "C19", "cases": cases_c19, "miri": True, "uses": ["generator_fine", "arbStr_fine", "validUpToF_valid"],
+            "level_text": "Proof (partial). Model (Ctap/Arb.lean) of the four length-handling helpers of src/arbitrary.rs "
+                          "(arbitrary_str / _bytes / _vec / _byte_array) over a model of the arbitrary-1.4.2 primitives they "
+                          "call (bytes, peek_bytes, fill_buffer integers, bool, int_in_range, choose, derive on field-less "
+                          "enums), with explicit outcomes for every unwrap() and for from_utf8_unchecked on ill-formed bytes. "
+                          "G-ARB (Ctap/ArbThm.lean): for every capacity and every byte string, each helper returns "
+                          "NotEnoughData or a value within capacity — arbitrary_str's result is well-formed UTF-8 because "
+                          "valid_up_to designates a well-formed prefix (validUpToF_valid, via the scalar-peeling lemmas of "
+                          "C13); the panic / UB outcomes are unreachable given the clamp `.min(N)` and the loop bound N, both "
+                          "read off the source by the translator (obligation Gen.arbShape = Spec.arbShape). generators_ok: "
+                          "the five hand-written impls built only from these helpers (rp entity, user entity, filtered "
+                          "parameters, attestation-format preference, hmac-secret input; draw lists extracted from the "
+                          "source, obligation Gen.arbImpls = Spec.arbImpls) return NotEnoughData or a value whose every text "
+                          "is well-formed and every bounded member within capacity. NOT modelled: derive(Arbitrary) on the "
+                          "request structs / enums, the arbitrary crate's own &str / &[u8] impls, the remaining hand-written "
+                          "impls that only compose those, the pointer cast in arbitrary_byte_array (layout): the three "
+                          "whole-request generators are covered by the correspondence run alone (harness built with "
+                          "--features arbitrary, debug assertions, catch_unwind: every text validated, Debug-formatted, "
+                          "cloned and compared, dispatched through a mock authenticator; thorough: a sample under Miri).",
+            "rule": "input families of the property (all-zero, all-0xFF, single-byte-repeated, random, and length-word + "
+                    "multi-byte / ill-formed text around the capacities 32..256, structured draw sequences) × 5 modelled "
+                    "types (value and remaining length compared with the model) + 3 whole-request generators (validity "
+                    "oracle; additionally steered to every enum variant)",
+            "assumptions": ["arbitrary 1.4.2 and derive_arbitrary behave as modelled / as observed",
+                            "whole-request generation is tested, not proved"]},
     "C16": {"ns": "C16", "cases": cases_c16, "uses": ["ext_encode", "rt"],
             "level_text": "Proof. G-EXT (Ctap/Extend.lean, mutual induction): if schema t' extends schema t — integer-keyed "
                           "structs only gain optional skipped members after all existing ones, text-keyed structs gain optional "
